@@ -435,8 +435,13 @@ func (d *Datastore) TransactionSet(ctx context.Context, transactionId string, tr
 		return nil, err
 	}
 
-	// Mark the transaction as successfully committed
-	transactionGuard.Success()
+	// Only an applied transaction stays open, waiting to be confirmed, cancelled or rolled back by its timer.
+	// A dry run or a transaction rejected by validation did not start the timer: keeping it registered would
+	// block the datastore for good, so it is left to the guard to unregister it.
+	if transaction.RollbackTimerStarted() {
+		// Mark the transaction as successfully committed
+		transactionGuard.Success()
+	}
 
 	log.Infof("Transaction: %s - transacted", transactionId)
 	return response, err
